@@ -185,6 +185,22 @@ CHECKS = {
              'file-system histories / clock granularity is NOT decided. Trusted: std::fs semantics; ' + TB,
         technique='field-read coverage over the call-graph cone, path-table extraction of the skip decision, dominance/reachability of failing exits vs. deletion points and drop-guard typestate in MIR',
         ref='§4 C18'),
+    'C19': dict(
+        level='other',
+        text='ONLY the clause "the line-start table is never indexed out of bounds": for every function of '
+             'cfgrammar::newlinecache every index or sub-slice of NewlineCache::newlines is proved in range on every path '
+             '(and no usize subtraction inside an index expression underflows) by a small linear-integer argument from the '
+             "path's comparisons, the postconditions of slice::binary_search over exactly the sub-slice searched, usize >= 0 "
+             'and two table invariants whose premises are checked structurally (new() builds the table as [0]; every other '
+             'holder of &mut newlines only grows it).',
+        note='A necessary condition of "the lines-of-span query never panics, including spans that end at a line start or at '
+             'the end of the text"; it found the out-of-bounds read fixed in /repo 707b1f1. NOT decided: that line/column '
+             'numbers and returned byte ranges are the right ones, the str slicing done with them in lrlex/lrpar, CR LF '
+             'column counting, the unwrap()s that rely on the same invariants. The inequality prover is in-house '
+             '(Fourier-Motzkin refutation + one integer tightening step, rules/linarith.py); no solver is called. Trusted: '
+             'slice::binary_search postconditions; ' + TB,
+        technique='path-sensitive linear bounds analysis over MIR terms (relational numeric abstract domain) + who-may-mutate check for the table invariants',
+        ref='§4 C19, §3 A10'),
     'C20': dict(
         level='other',
         text='All unchecked usize->StorageT narrowing casts (AsPrimitive::as_) in the library crates are enumerated from the '
@@ -201,7 +217,6 @@ CHECKS = {
 NA = {
     'C01': 'language equality of the generated automaton is a property of computed item sets for every grammar x input; no structural clause beyond what C02/C16 cover',
     'C13': 'equivalence of compile-time and run-time pipelines is per-program translation validation and needs both to be run; statically visible parts are covered under C11/C14/C15',
-    'C19': 'line/column mapping is index arithmetic over runtime vectors; needs relational numeric reasoning (a solver), a different technique family',
 }
 
 PENDING = 'static rule designed in DESIGN.md §4 but not implemented yet in this revision; not claimed until its check exists'
